@@ -25,6 +25,7 @@ import GraphiqModel.Proofs.CompareRepairEquiv
 import GraphiqModel.Proofs.CompareRepairComplete
 import GraphiqModel.Proofs.CompareRepairSearch
 import GraphiqModel.Proofs.CompareRepairExact
+import GraphiqModel.Proofs.CompareRepairLin
 namespace Graphiq.C15
 open Graphiq Graphiq.Export Graphiq.Compare
 
@@ -472,6 +473,25 @@ theorem reordering_does_not_change_the_answer (c1 c2 c2' : Circuit) (h1 : WellFo
     ⟨hπ.ne.trans hn.1, hπ.np.trans hn.2.1, hπ.nc.trans hn.2.2, hπ.into, hπ.inj, hπ.surj,
       fun w hwW => (hw (π w)).symm.trans (hπ.wires w hwW)⟩
 
+/-- **the comparison the filters make decides exactly "the executed operations are equal up to a renaming of the
+    registers"**: after `unwrap_nodes` and `remove_identity` two well-formed circuits are reported isomorphic iff their
+    flattened operation lists (wrappers expanded in application order, identities dropped) are renamings of each other
+    register by register.  (The normalised DAG is no built DAG — node ids are no operation indices any more — so the
+    invariant carried through `insert_at` / `remove_op` also keeps a linear order of the operation nodes along which every
+    register path runs, and the absence of parallel edges with one key.) -/
+theorem filter_comparison_decides_renaming (c1 c2 : Circuit) (h1 : WellFormed c1) (h2 : WellFormed c2) :
+    isoNormalised2 c1 c2 = .ok true ↔ ∃ π, RenamedBy π (flatC c1) (flatC c2) :=
+  isoNorm2_exact c1 c2 (wellFormed_opOK c1 h1) (wellFormed_opOK c2 h2)
+
+/-- **`remove_redundant_circuits` with the repaired comparison keeps exactly one circuit of every class**: the result is a
+    sub-list of the input; every input circuit is kept or is (in its executed operations) a renaming of a kept one; and no
+    two kept circuits are renamings of each other -/
+theorem dedup_exact (l : List Circuit) (hl : ∀ c ∈ l, WellFormed c) :
+    (removeRedundant2 l).Sublist l ∧
+    (∀ x ∈ l, x ∈ removeRedundant2 l ∨ ∃ k ∈ removeRedundant2 l, ∃ π, RenamedBy π (flatC k) (flatC x)) ∧
+    (removeRedundant2 l).Pairwise (fun a b => ¬ ∃ π, RenamedBy π (flatC a) (flatC b)) :=
+  ⟨(dedup_sound l hl).1, (dedup_sound l hl).2, removeRedundant2_minimal l (fun c hc => wellFormed_opOK c (hl c hc))⟩
+
 /-! ## Non-vacuity -/
 
 /-- H e0; CNOT e0→p0; W[H,P] p0; measure-and-reset e0→p0; identity -/
@@ -532,6 +552,10 @@ def reoA : Circuit := ⟨2, 0, 1, [.one .H e0, .meas e1 0]⟩
 def reoB : Circuit := ⟨2, 0, 1, [.meas e0 0, .one .H e1]⟩
 example : WellFormed reoA ∧ WellFormed reoB ∧ circuitIsIsomorphic2 reoA reoB = .ok true := by decide +kernel
 example : RenamedBy (fun w => if w = ⟨.e, 0⟩ then ⟨.e, 1⟩ else if w = ⟨.e, 1⟩ then ⟨.e, 0⟩ else w) reoA reoB := by
+  refine ⟨rfl, rfl, rfl, ?_, ?_, ?_, ?_⟩ <;> decide
+
+/-- the right-hand side of `filter_comparison_decides_renaming` is met by the re-bracketed demo pair (identity renaming) -/
+example : RenamedBy id (flatC demo) (flatC demo') := by
   refine ⟨rfl, rfl, rfl, ?_, ?_, ?_, ?_⟩ <;> decide
 
 end Graphiq.C15
